@@ -25,8 +25,30 @@ func (so SortOrder) String() string {
 
 // A `SELECT` statement
 type SelectStmt struct {
-	Table   string
+	Table string
+	// column names, or "*" for all columns
 	Columns []string
+	// NamedStar has the positions in Columns of a column whose name is `*`
+	// (written as a quoted identifier): those are not the wildcard. nil for
+	// about every statement there is.
+	NamedStar []int
+}
+
+// a single entry of a SELECT column list
+type resultColumn struct {
+	name string
+	star bool // the `*` wildcard
+}
+
+func newSelectStmt(table string, cols []resultColumn) SelectStmt {
+	st := SelectStmt{Table: table}
+	for i, c := range cols {
+		st.Columns = append(st.Columns, c.name)
+		if c.name == "*" && !c.star {
+			st.NamedStar = append(st.NamedStar, i)
+		}
+	}
+	return st
 }
 
 // A `CREATE TABLE` statement
